@@ -13,9 +13,13 @@ the last written byte.  The relation is preserved by every bus write to FF10–F
 values, power on or off), by NR52 power toggles and by machine cycles (timers, frame
 sequencer, sweep, envelopes, length counters and triggers never touch a readable field).
 
-Deviation recorded here (see `c18_new_nr10_reads_88`): `audio.New` performs its register
-initialisation while `control.on` is still false, so all of it is ignored and NR10 reads 0x88
-(not 0x80) until NR10 is first written or sound is power-cycled.
+History: before /repo commit 636f923 `audio.New` left `sweepIncrease` false (its register
+initialisation runs while `control.on` is still false and is ignored), so NR10 read 0x88 until it
+was first written or sound was power-cycled; `c18_readback` then carried a hypothesis `NR10Settled`
+for address FF10 and a theorem `c18_new_nr10_reads_88` recorded the deviation.  With the fix the
+sweep unit is created with `sweepIncrease: true`, the state after New is related to the cleared
+register file `Regs.init`, and the read-back theorem holds without that hypothesis
+(`c18_new_nr10_reads_80`).
 -/
 namespace Tetro.C18
 open Tetro.Model.Apu Tetro.Model.Apu.Apu Tetro.Spec.Apu
@@ -29,9 +33,6 @@ def specRun (r : Regs) (ops : List Op) : Regs := ops.foldl specStep r
 
 /-- register file after a history that starts at power-on with cleared registers -/
 def lastWritten (ops : List Op) : Regs := specRun Regs.init ops
-
-/-- what `audio.New` really leaves behind: as `Regs.init`, but NR10 looks as if 0x08 had been written -/
-def Regs.afterNew : Regs := ⟨true, fun x => if x = 0xFF10 then 8 else 0⟩
 
 private theorem spec_write_mod (r : Regs) (addr v : Nat) : r.write addr (v % 256) = r.write addr v := by
   simp [Regs.write]
@@ -49,11 +50,11 @@ private theorem R_run {a : Apu} {sp : Regs} (ops : List Op) (h : R a sp) : R (a.
   | nil => exact h
   | cons op ops ih => exact ih (R_step op h)
 
-private theorem R_new (hl hr : Bool) : R (Apu.new hl hr) Regs.afterNew := by
+private theorem R_new (hl hr : Bool) : R (Apu.new hl hr) Regs.init := by
   constructor
   all_goals first
     | (cases hl <;> cases hr <;> decide)
-    | (intro x; simp only [Regs.afterNew]; split <;> decide)
+    | (intro x; simp only [Regs.init]; decide)
 
 /-- readback in the general form: from ANY model state related to a register file, after ANY
     history, each of the 20 registers reads `last written ||| mask` -/
@@ -62,85 +63,16 @@ theorem c18_readback_from {a : Apu} {sp : Regs} (h : R a sp) (ops : List Op) (ad
     (a.run ops).read addr = some ((specRun sp ops).val addr ||| m) :=
   R_read (R_run ops h) addr m hm
 
-/-! the two register files `afterNew` and `init` differ only at NR10, and only until NR10 is written
-    while on or sound is powered off -/
-
-private def Agree (r r' : Regs) : Prop := r.on = r'.on ∧ ∀ x, x ≠ 0xFF10 → r.val x = r'.val x
-
-private theorem regs_ext {r r' : Regs} (h1 : r.on = r'.on) (h2 : ∀ x, r.val x = r'.val x) : r = r' := by
-  cases r; cases r'; simp only [Regs.mk.injEq]; exact ⟨h1, funext h2⟩
-
-private theorem agree_step {r r' : Regs} (op : Op) (h : Agree r r') : Agree (specStep r op) (specStep r' op) := by
-  cases op with
-  | cycle => exact h
-  | write ad v =>
-    obtain ⟨h1, h2⟩ := h
-    simp only [specStep, Regs.write]
-    repeat' split
-    all_goals (first | exact ⟨rfl, fun _ _ => rfl⟩ | exact ⟨rfl, h2⟩ | exact ⟨h1, h2⟩ | skip)
-    all_goals (try simp_all)
-    all_goals (first
-      | (refine ⟨?_, fun x hx => ?_⟩ <;> simp_all)
-      | skip)
-
-private theorem agree_run {r r' : Regs} (ops : List Op) (h : Agree r r') : Agree (specRun r ops) (specRun r' ops) := by
-  induction ops generalizing r r' with
-  | nil => exact h
-  | cons op ops ih => exact ih (agree_step op h)
-
-/-- NR10 has been given a defined value: sound was powered off at some point, or NR10 was
-    written while sound was on -/
-def NR10Settled (ops : List Op) : Prop :=
-  ∃ pre ad v post, ops = pre ++ Op.write ad v :: post ∧
-    ((ad = NR52 ∧ v % 256 < 128) ∨ (ad = 0xFF10 ∧ (lastWritten pre).on = true))
-
-private theorem settle_step {r r' : Regs} (ad v : Nat) (h : Agree r r')
-    (hs : (ad = NR52 ∧ v % 256 < 128) ∨ (ad = 0xFF10 ∧ r'.on = true)) :
-    r.write ad v = r'.write ad v := by
-  obtain ⟨h1, h2⟩ := h
-  rcases hs with ⟨e, hv⟩ | ⟨e, hon⟩
-  · subst e; simp [Regs.write, hv]
-  · subst e
-    have hon' : r.on = true := by rw [h1, hon]
-    have hm : (mask 0xFF10).isSome = true := by decide
-    apply regs_ext
-    · simp [Regs.write, NR52, hon, hon', hm]
-    · intro x
-      simp only [Regs.write, NR52, hon, hon', hm]
-      by_cases hx : x = 0xFF10
-      · simp [hx]
-      · simp [hx, h2 x hx]
-
 private theorem specRun_append (r : Regs) (xs ys : List Op) : specRun r (xs ++ ys) = specRun (specRun r xs) ys := by
   simp [specRun, List.foldl_append]
 
-private theorem agree_afterNew_init : Agree Regs.afterNew Regs.init := by
-  refine ⟨rfl, fun x hx => ?_⟩
-  simp [Regs.afterNew, Regs.init, hx]
-
-private theorem val_afterNew (ops : List Op) (addr : Nat) (h : addr = 0xFF10 → NR10Settled ops) :
-    (specRun Regs.afterNew ops).val addr = (lastWritten ops).val addr := by
-  by_cases e : addr = 0xFF10
-  · obtain ⟨pre, ad, v, post, rfl, hs⟩ := h e
-    have hpre := agree_run pre agree_afterNew_init
-    have : specRun Regs.afterNew (pre ++ Op.write ad v :: post) = specRun Regs.init (pre ++ Op.write ad v :: post) := by
-      rw [specRun_append, specRun_append]
-      show specRun (specStep (specRun Regs.afterNew pre) (Op.write ad v)) post =
-           specRun (specStep (specRun Regs.init pre) (Op.write ad v)) post
-      show specRun ((specRun Regs.afterNew pre).write ad v) post = specRun ((specRun Regs.init pre).write ad v) post
-      rw [settle_step ad v hpre hs]
-    unfold lastWritten; rw [this]
-  · exact (agree_run ops agree_afterNew_init).2 addr e
-
 /-- **C18 (read-back).**  After `audio.New` and ANY history of bus writes (any address FF10–FF3F,
     any value, including NR52 power toggles) and machine cycles, each of the 20 registers NR10–NR51
-    reads the byte last written to it while sound was on (0 after a power-off) ORed with its DMG
-    mask.  For NR10 this needs the register to have been written or sound to have been
-    power-cycled once (`NR10Settled`), see `c18_new_nr10_reads_88`. -/
-theorem c18_readback (hl hr : Bool) (ops : List Op) (addr m : Nat) (hm : mask addr = some m)
-    (h10 : addr = 0xFF10 → NR10Settled ops) :
-    ((Apu.new hl hr).run ops).read addr = some ((lastWritten ops).val addr ||| m) := by
-  rw [c18_readback_from (R_new hl hr) ops addr m hm, val_afterNew ops addr h10]
+    reads the byte last written to it while sound was on (0 if none since New or the last
+    power-off) ORed with its DMG mask. -/
+theorem c18_readback (hl hr : Bool) (ops : List Op) (addr m : Nat) (hm : mask addr = some m) :
+    ((Apu.new hl hr).run ops).read addr = some ((lastWritten ops).val addr ||| m) :=
+  c18_readback_from (R_new hl hr) ops addr m hm
 
 /-- non-vacuity: writes, a trigger, cycles and a power cycle; NR12 still reads the later 0xA5 -/
 example : ((Apu.new true true).run [.write 0xFF12 0xF3, .write 0xFF14 0x87, .cycle, .write 0xFF26 0x00,
@@ -149,18 +81,17 @@ example : ((Apu.new true true).run [.write 0xFF12 0xF3, .write 0xFF14 0x87, .cyc
 /-- the power flag of the model follows the abstract register file -/
 theorem c18_power (hl hr : Bool) (ops : List Op) :
     ((Apu.new hl hr).run ops).control.on = (lastWritten ops).on := by
-  rw [R.on (R_run ops (R_new hl hr))]
-  exact (agree_run ops agree_afterNew_init).1
+  exact R.on (R_run ops (R_new hl hr))
 
 private theorem specRun_cycles (r : Regs) (n : Nat) : specRun r (List.replicate n Op.cycle) = r := by
   induction n with
   | zero => rfl
   | succ k ih => simpa [specRun, List.replicate_succ, specStep] using ih
 
-/-- the deviation: right after `audio.New` (and as long as NR10 is not written and sound is not
-    power-cycled – here: after any number of machine cycles) NR10 reads 0x88, not its mask 0x80 -/
-theorem c18_new_nr10_reads_88 (hl hr : Bool) (n : Nat) :
-    ((Apu.new hl hr).run (List.replicate n Op.cycle)).read 0xFF10 = some 0x88 := by
+/-- right after `audio.New`, and after any number of machine cycles, NR10 reads its mask 0x80
+    (before fix 636f923 the model – like the code – read 0x88 here) -/
+theorem c18_new_nr10_reads_80 (hl hr : Bool) (n : Nat) :
+    ((Apu.new hl hr).run (List.replicate n Op.cycle)).read 0xFF10 = some 0x80 := by
   rw [c18_readback_from (R_new hl hr) (List.replicate n Op.cycle) 0xFF10 0x80 (by decide), specRun_cycles]
   decide
 
@@ -295,9 +226,9 @@ theorem c18_nr52_off (hl hr : Bool) (ops : List Op) (hoff : ((Apu.new hl hr).run
 theorem c18_off_masks (hl hr : Bool) (ops : List Op) (v : Nat) (hv : v % 256 < 128) :
     (∀ addr m, mask addr = some m → ((Apu.new hl hr).run (ops ++ [.write 0xFF26 v])).read addr = some m) ∧
     ((Apu.new hl hr).run (ops ++ [.write 0xFF26 v])).read 0xFF26 = some 0x70 := by
-  have hspec : specRun Regs.afterNew (ops ++ [.write 0xFF26 v]) = ⟨false, fun _ => 0⟩ := by
+  have hspec : specRun Regs.init (ops ++ [.write 0xFF26 v]) = ⟨false, fun _ => 0⟩ := by
     rw [specRun_append]
-    show (specRun Regs.afterNew ops).write 0xFF26 v = _
+    show (specRun Regs.init ops).write 0xFF26 v = _
     simp [Regs.write, NR52, hv]
   constructor
   · intro addr m hm
